@@ -140,7 +140,7 @@ SMALL = {"n_estimators": [2, 3], "max_ensemble_size": [2, 3], "n_parameter_sampl
          "num_features": [84], "window_length": [3, 5], "sp": [1, 2], "degree": [1, 2], "n_lags": [3, 4],
          "n_sigma": [2, 3], "num_intervals": [2, 4], "word_length": [4], "window_size": [8],
          "n_intervals": [2], "num_levels": [1, 2], "m": [4], "acf_lag": [4], "acf_min_values": [2],
-         "random_state": [0, 7], "n_jobs": [None, 1], "alphabet_size": [4], "pad_length": [None]}
+         "random_state": [0, 7], "n_jobs": [None, 1, 2, 2], "alphabet_size": [4], "pad_length": [None]}
 CLASS_POOLS = {
     ("NaiveForecaster", "strategy"): ["last", "mean", "drift"],
     ("EnsembleForecaster", "aggfunc"): ["mean", "median", "min", "max"],
@@ -185,7 +185,7 @@ def variations(cls, rng):
     for name in sorted(kw):
         # integers as they come out of numpy arrays / grids (np.int64), not only python ints
         if isinstance(kw[name], int) and not isinstance(kw[name], bool) and name != "random_state" \
-                and rng.random() < 0.12:
+                and rng.random() < 0.3:
             kw[name] = np.int64(kw[name])
     return kw
 
